@@ -229,7 +229,7 @@ proof fn lemma_neg_inv_def(k: int, inv0: int, inv: int, m0: int, mv: int)
 }
 
 /// conversion into Montgomery form: x * r2 * R^-1 == x * R (mod m)
-proof fn lemma_to_mont(x: int, r2: int, m: int, n: nat)
+pub proof fn lemma_to_mont(x: int, r2: int, m: int, n: nat)
     requires m >= 1, m % 2 == 1, r2 == (bp(n) * bp(n)) % m
     ensures mont_repr(x * r2, m, n) == (x * bp(n)) % m,
         mont_repr((x * bp(n)) % m, m, n) == x % m
@@ -246,7 +246,7 @@ proof fn lemma_to_mont(x: int, r2: int, m: int, n: nat)
 }
 
 /// 0 represents 0
-proof fn lemma_repr_zero(m: int, n: nat)
+pub proof fn lemma_repr_zero(m: int, n: nat)
     requires m >= 1, m % 2 == 1
     ensures mont_repr(0, m, n) == 0
 {
@@ -255,7 +255,7 @@ proof fn lemma_repr_zero(m: int, n: nat)
 }
 
 /// negation: (m - a) mod m represents -repr(a) mod m
-proof fn lemma_repr_neg(a: int, m: int, n: nat)
+pub proof fn lemma_repr_neg(a: int, m: int, n: nat)
     requires m >= 1, m % 2 == 1
     ensures mont_repr((m - a) % m, m, n) == (-mont_repr(a, m, n)) % m
 {
@@ -267,7 +267,7 @@ proof fn lemma_repr_neg(a: int, m: int, n: nat)
 }
 
 /// halving: 2 * repr(r) == repr(a) (mod m) when 2r == a (mod m)
-proof fn lemma_repr_half(r: int, a: int, m: int, n: nat)
+pub proof fn lemma_repr_half(r: int, a: int, m: int, n: nat)
     requires m >= 1, m % 2 == 1, (2 * r) % m == a
     ensures (2 * mont_repr(r, m, n)) % m == mont_repr(a, m, n)
 {
